@@ -635,6 +635,13 @@ class RequestHandler(BaseProtocol, Generic[_Request]):
                     request.remote,
                     exc_info=exc.__cause__,
                 )
+            if request.writer.output_size > 0:
+                # The handler already started a response: a second head would
+                # land inside its unfinished body. The connection is broken.
+                raise ConnectionError(
+                    "Response is sent already, cannot send another response "
+                    "for the raised HTTP exception"
+                )
             resp = Response(
                 status=exc.status, reason=exc.reason, text=exc.text, headers=exc.headers
             )
